@@ -147,6 +147,16 @@ SPECS += [
          props=["C19"], **SCHED_COMMON),
 ]
 
+# ---- schedule.py : who owns a slot (C19 link list; `_map_outputs` also builds the `output_owners` of `_find_dependencies`) ----
+SPECS += [
+    dict(lean="map_inputs", path="schedule.py", qual="_map_inputs", group="Owners",
+         params={"components": "List[Obj]"}, ret="Dict[Obj,Obj]", locals={"in_map": "Dict[Obj,Obj]"},
+         consts=_ITEMS, props=["C19"], **SCHED_COMMON),
+    dict(lean="map_outputs", path="schedule.py", qual="_map_outputs", group="Owners",
+         params={"components": "List[Obj]"}, ret="Dict[Obj,Obj]", locals={"out_map": "Dict[Obj,Obj]"},
+         consts=_ITEMS, props=["C19"], **SCHED_COMMON),
+]
+
 INTEG_COMMON = dict(
     path="adapters/time_integration.py", group="Integ", ret="Rat",
     calls={"self._unpack": "id", "interpolate": {"lean": "interpolate", "args": [0, 1, 2], "ret": "Rat"}},
